@@ -909,6 +909,34 @@ pub struct GenOpts {
     pub truncate: bool,
 }
 
+/// Run the reference model over a request list and produce session items.
+pub fn build_items(t: &mut Tape, all: Vec<(FReq, Script)>, policy: Policy, seg_mode: u64) -> Vec<Item> {
+    let mut nego = Nego::default();
+    let mut items = Vec::new();
+    for (req, script) in all {
+        let mut need_reply = t.chance(1, 2);
+        if let FReq::SetProtocolFeatures(x) = &req {
+            // whether the message that itself acknowledges REPLY_ACK is acked is a don't-care
+            if (x & pf::REPLY_ACK != 0) != (nego.acked_proto & pf::REPLY_ACK != 0) {
+                need_reply = false;
+            }
+        }
+        let exp = model_step(&mut nego, &req, need_reply, &script, policy);
+        let wire = req.wire(need_reply);
+        let mode = if seg_mode == 9 { t.draw(6) } else { seg_mode };
+        let cuts = gen_cuts(t, wire.len(), mode);
+        items.push(Item {
+            req,
+            need_reply,
+            script,
+            wire,
+            cuts,
+            exp,
+        });
+    }
+    items
+}
+
 pub fn gen_session(t: &mut Tape, o: &GenOpts) -> Session {
     let policy = if t.chance(1, 2) { Policy::App } else { Policy::Daemon };
     let lockstep = t.chance(1, 2);
@@ -944,30 +972,7 @@ pub fn gen_session(t: &mut Tape, o: &GenOpts) -> Session {
         let s = gen_script(t, &r, o.fail_rate);
         all.push((r, s));
     }
-    let mut nego = Nego::default();
-    let mut items = Vec::new();
-    for (req, script) in all {
-        let mut need_reply = t.chance(1, 2);
-        if let FReq::SetProtocolFeatures(x) = &req {
-            // whether the message that itself acknowledges REPLY_ACK is acked is a don't-care
-            if (x & pf::REPLY_ACK != 0) != (nego.acked_proto & pf::REPLY_ACK != 0) {
-                need_reply = false;
-            }
-        }
-        let exp = model_step(&mut nego, &req, need_reply, &script, policy);
-        let wire = req.wire(need_reply);
-        let mode = o.seg_mode.unwrap_or(0);
-        let mode = if mode == 9 { t.draw(6) } else { mode };
-        let cuts = gen_cuts(t, wire.len(), mode);
-        items.push(Item {
-            req,
-            need_reply,
-            script,
-            wire,
-            cuts,
-            exp,
-        });
-    }
+    let items = build_items(t, all, policy, o.seg_mode.unwrap_or(0));
     let mut truncate = None;
     let mut lockstep = lockstep;
     if o.truncate {
